@@ -36,10 +36,11 @@ const (
 	KChoose
 	KUser
 	KWait
+	KFunc // function entry in a package rewritten with flag f
 	kindCount
 )
 
-var kindNames = [...]string{"start", "lock", "rlock", "atomic", "etcd", "kv", "yield", "choose", "user", "wait"}
+var kindNames = [...]string{"start", "lock", "rlock", "atomic", "etcd", "kv", "yield", "choose", "user", "wait", "func"}
 
 func (k Kind) String() string { return kindNames[k] }
 
@@ -444,6 +445,11 @@ func observe(t *Thread) {
 		t.noPoint--
 	}
 }
+
+// FuncEntry is the scheduling point the rewriter (flag f) puts at the entry of every function
+// of a package: interleavings at function-call granularity, for code whose shared data is not
+// guarded by any lock or atomic (a scratch buffer at package level, say).
+func FuncEntry(label string) { PointAt(KFunc, label) }
 
 // PointAt is a scheduling point: the explorer may switch to another thread here.
 func PointAt(kind Kind, label string) {
